@@ -7,7 +7,7 @@
    torch_dataset are the hand-written entry points of C09/Tools.v; lib_features,
    kaldi_spec, kaldi_select, torch_select, pt_features, torch_stored are the
    specification (C09/Model.v, C09/Tools.v).  L is the library, abstractly. *)
-From Coq Require Import ZArith QArith List Bool String.
+From Coq Require Import ZArith QArith List Bool String Ascii.
 From Verif Require Import C09.Model gen.CmdLine C09.Tools C09.Proofs.
 Import ListNotations.
 Open Scope Z_scope.
@@ -237,11 +237,50 @@ Theorem torch_manifest_excludes_exactly_listed :
          (comp : option (PtComp L)) (post : list (PtPost L)),
     td_utt_path (torch_dataset a seed m pre comp post) =
     match ta_manifest a with
-    | Some lines => filter (fun kv : string * string => negb (mem_str (fst kv) (map strip lines))) m
+    | Some lines => filter (fun kv : string * string => negb (mem_str (fst kv) (map torch_manifest_key lines))) m
     | None => m
     end.
 Proof. exact @torch_dataset_utts_l. Qed.
 Print Assumptions torch_manifest_excludes_exactly_listed.
+
+(** the line the tool appends for an utterance stands for that utterance on the next run *)
+Theorem manifest_line_roundtrip :
+  forall u : string, wf_id u -> torch_manifest_key (u ++ String nl EmptyString)%string = u.
+Proof. exact manifest_line_roundtrip_l. Qed.
+Print Assumptions manifest_line_roundtrip.
+
+(** reading the map file (generated torch_map_loop): lines that render a list of
+    well-formed entries - blank lines anywhere, blanks and line terminators
+    around an entry, blanks inside a path - are read back as exactly that list,
+    in order, when the ids are distinct; *)
+Theorem map_file_read_back :
+  forall (lines : list string) (es : list (string * string)),
+    renders lines es ->
+    forall (n : Z) (acc : list (string * string)),
+      NoDup (map fst acc ++ map fst es) -> torch_map_loop lines n acc = MapOk (acc ++ es).
+Proof. exact parse_map_wellformed. Qed.
+Print Assumptions map_file_read_back.
+
+(** a line with a single field, or with an id already seen, ends the tool with status 1 *)
+Theorem map_file_one_field_rejected :
+  forall (ws1 ws2 u : string) (rest : list string) (n : Z) (acc : list (string * string)),
+    all_space ws1 = true -> all_space ws2 = true -> wf_id u ->
+    torch_map_loop ((ws1 ++ u ++ ws2)%string :: rest) n acc = MapExit 1.
+Proof. exact parse_map_one_field. Qed.
+Print Assumptions map_file_one_field_rejected.
+
+Theorem map_file_duplicate_rejected :
+  forall (ws1 ws2 u p : string) (rest : list string) (n : Z) (acc : list (string * string)),
+    all_space ws1 = true -> all_space ws2 = true -> wf_id u -> wf_path p -> dict_mem u acc = true ->
+    torch_map_loop ((ws1 ++ (u ++ String sp p) ++ ws2)%string :: rest) n acc = MapExit 1.
+Proof. exact torch_map_duplicate_l. Qed.
+Print Assumptions map_file_duplicate_rejected.
+
+(** without --seed a fresh seed is drawn; with it (0 included) that seed is used *)
+Theorem torch_seed_choice_spec :
+  forall (fresh z : Z), torch_seed_choice (Some z) fresh = z /\ torch_seed_choice None fresh = fresh.
+Proof. exact torch_seed_choice_l. Qed.
+Print Assumptions torch_seed_choice_spec.
 
 (** an item that raises stops the run; the files written before it stay *)
 Theorem torch_failure_keeps_earlier_files :
